@@ -24,6 +24,12 @@ static LARGEST: [AtomicU64; SLOTS] = [ZERO_U; SLOTS];
 static REQUESTED: [AtomicU64; SLOTS] = [ZERO_U; SLOTS];
 static CAP: [AtomicU64; SLOTS] = [ZERO_U; SLOTS];
 static NEXT_SLOT: AtomicUsize = AtomicUsize::new(1);
+static CAP_HOOK: std::sync::atomic::AtomicPtr<()> = std::sync::atomic::AtomicPtr::new(std::ptr::null_mut());
+
+/// `f` is called (on the thread that exceeded its cap) right before the process exits with status 97
+pub fn set_cap_hook(f: fn()) {
+    CAP_HOOK.store(f as *mut (), Ordering::Relaxed);
+}
 
 thread_local! {
     static SLOT: Cell<usize> = const { Cell::new(0) };
@@ -67,6 +73,14 @@ fn account(slot: usize, delta: i64, request: u64) {
         REQUESTED[slot].fetch_add(request, Ordering::Relaxed);
         let cap = CAP[slot].load(Ordering::Relaxed);
         if cap != 0 && live as u64 > cap {
+            // let the monitor say which case was running (once; allocations made by the hook are not capped)
+            CAP[slot].store(0, Ordering::Relaxed);
+            let hook = CAP_HOOK.load(Ordering::Relaxed);
+            if !hook.is_null() {
+                let _ = IN_SCOPE.try_with(|s| s.set(false));
+                let f: fn() = unsafe { std::mem::transmute::<*mut (), fn()>(hook) };
+                f();
+            }
             let msg = b"MON-ALLOC-CAP exceeded\n";
             unsafe {
                 libc::write(2, msg.as_ptr() as *const libc::c_void, msg.len());
